@@ -14,7 +14,6 @@ from snakeoil.sequences import iflatten_instance
 from ..ebuild.atom import atom
 from ..operations import repo
 from ..restrictions import boolean, packages, restriction, values
-from ..restrictions.util import collect_package_restrictions
 
 
 class CategoryLazyFrozenSet:
@@ -318,20 +317,26 @@ class tree:
         # full expansion
         if not isinstance(restrict, boolean.base) or isinstance(restrict, atom):
             return self._fast_identify_candidates(restrict, sorter)
+        if not isinstance(restrict, (boolean.AndRestriction, boolean.OrRestriction)):
+            # exactly-one-of / at-most-one-of: a member need not hold for the
+            # group to, so nothing narrows the search.
+            return self.versions
         # a negated restriction doesn't pin anything down; it counts as unspecified.
+        # Likewise a counting group met as a literal of a solution: only the
+        # plain restrictions standing in the solution itself are necessary.
         dsolutions = [
             (
                 [
                     c.restriction
-                    for c in collect_package_restrictions(x, ("category",))
+                    for c in x
                     # a restriction over several attributes wants the list of
                     # their values; it can't be asked about a category alone
-                    if not c.negate and len(c.attrs) == 1
+                    if getattr(c, "attrs", None) == ("category",) and not c.negate
                 ],
                 [
                     p.restriction
-                    for p in collect_package_restrictions(x, ("package",))
-                    if not p.negate and len(p.attrs) == 1
+                    for p in x
+                    if getattr(p, "attrs", None) == ("package",) and not p.negate
                 ],
             )
             for x in restrict.iter_dnf_solutions(True)
@@ -456,7 +461,10 @@ class tree:
         while stack:
             node = stack.pop()
             if isinstance(node, boolean.base):
-                if node is restrict or not node.negate:
+                # members of a counting group aren't necessary conditions
+                if isinstance(node, (boolean.AndRestriction, boolean.OrRestriction)) and (
+                    node is restrict or not node.negate
+                ):
                     stack.extend(node.restrictions)
             elif node is restrict or not getattr(node, "negate", False):
                 node_attrs = getattr(node, "attrs", ())
